@@ -46,6 +46,7 @@ type Frame struct {
 	closures map[ssa.Value]*Closure
 	iters    map[ssa.Value]*Iter
 	fnOrigin map[ssa.Value]string
+	fnSelf   map[ssa.Value]Term
 	depth    int
 	params   []Term
 	freeA    map[*ssa.FreeVar]*Addr
@@ -74,13 +75,14 @@ type loopInfo struct {
 type exit struct {
 	st      *State
 	results []Term
+	pos     string
 }
 
 func (u *UnitGen) newFrame(fn *ssa.Function, depth int) *Frame {
 	u.nframes++
 	return &Frame{id: u.nframes, fn: fn, depth: depth,
 		vals: map[ssa.Value]Term{}, addrs: map[ssa.Value]*Addr{}, tuples: map[ssa.Value][]Term{},
-		closures: map[ssa.Value]*Closure{}, iters: map[ssa.Value]*Iter{}, fnOrigin: map[ssa.Value]string{},
+		closures: map[ssa.Value]*Closure{}, iters: map[ssa.Value]*Iter{}, fnOrigin: map[ssa.Value]string{}, fnSelf: map[ssa.Value]Term{},
 		freeA: map[*ssa.FreeVar]*Addr{}, freeT: map[*ssa.FreeVar]Term{},
 		localNames: map[string]*ssa.Alloc{}, loopDefers: map[string]string{}, guardOrigin: map[ssa.Value]guardRef{}}
 }
@@ -239,6 +241,29 @@ func (u *UnitGen) execRegion(fr *Frame, entry *ssa.BasicBlock, region map[*ssa.B
 			continue
 		}
 		label := fmt.Sprintf("f%db%d", fr.id, b.Index)
+		if fr.top && len(ins) > 1 && isPlainReturnBlock(b) && len(fr.defers) == 0 && len(fr.loopDefers) == 0 && fr.loopOf(b) == nil {
+			// tail duplication: a return block is executed once per incoming path, so that the
+			// postconditions are checked per path instead of on a merged state
+			for i, e := range ins {
+				cur := u.merge(fmt.Sprintf("%sp%d", label, i+1), []edgeState{e})
+				for _, instr := range b.Instrs {
+					if p := instr.Pos(); p.IsValid() {
+						pos := u.g.fset.Position(p)
+						u.curPos = fmt.Sprintf("%s:%d", shortFile(pos.Filename), pos.Line)
+					}
+					if t, ok := instr.(*ssa.Return); ok {
+						var rs []Term
+						for _, r := range t.Results {
+							rs = append(rs, u.val(fr, cur, r))
+						}
+						exits = append(exits, exit{cur, rs, fmt.Sprintf("%s (path %d)", u.curPos, i+1)})
+						continue
+					}
+					u.execInstr(fr, cur, instr)
+				}
+			}
+			continue
+		}
 		cur := u.merge(label, ins)
 		if li := fr.loopOf(b); li != nil && li != skipCut {
 			cur = u.cutLoop(fr, li, cur)
@@ -247,6 +272,9 @@ func (u *UnitGen) execRegion(fr *Frame, entry *ssa.BasicBlock, region map[*ssa.B
 			if p := instr.Pos(); p.IsValid() {
 				pos := u.g.fset.Position(p)
 				u.curPos = fmt.Sprintf("%s:%d", shortFile(pos.Filename), pos.Line)
+				if fr.top {
+					u.anchoredAsserts(fr, cur, pos.Filename, pos.Line)
+				}
 			}
 			switch t := instr.(type) {
 			case *ssa.If:
@@ -260,7 +288,7 @@ func (u *UnitGen) execRegion(fr *Frame, entry *ssa.BasicBlock, region map[*ssa.B
 				for _, r := range t.Results {
 					rs = append(rs, u.val(fr, cur, r))
 				}
-				exits = append(exits, exit{cur, rs})
+				exits = append(exits, exit{cur, rs, u.curPos})
 			case *ssa.Panic:
 				u.oblige(cur, "safety", u.obName("safety:panic"), "explicit panic is unreachable", TFalse)
 			default:
@@ -329,7 +357,15 @@ func (u *UnitGen) cutLoop(fr *Frame, li *loopInfo, st *State) *State {
 	for k, v := range u.obCtr {
 		savedCtr[k] = v
 	}
+	savedAx := map[string]bool{}
+	for k := range u.axiomDone {
+		savedAx[k] = true
+	}
 	restore := func() {
+		u.axiomDone = map[string]bool{}
+		for k := range savedAx {
+			u.axiomDone[k] = true
+		}
 		u.events = u.events[:nEv]
 		u.obs = u.obs[:nObs]
 		u.obCtr = map[string]int{}
@@ -441,7 +477,13 @@ func (u *UnitGen) cutLoop(fr *Frame, li *loopInfo, st *State) *State {
 			// only the same objects are written in every iteration: everything else keeps its value
 			arr := old
 			for i, r := range fixed {
-				arr = Store(arr, r, u.havoc(fmt.Sprintf("loop%d_%s_at%d", li.ordinal, k, i), elemSort(so)))
+				fv := u.havoc(fmt.Sprintf("loop%d_%s_at%d", li.ordinal, k, i), elemSort(so))
+				if strings.HasPrefix(k, "MD:") {
+					arr = Ite(Eq(r, IntN(0)), arr, Store(arr, r, fv))
+				} else {
+					arr = Store(arr, r, fv)
+				}
+				u.typedFresh = append(u.typedFresh, typedVal{k, fv, true})
 			}
 			nv = u.define(fmt.Sprintf("loop%d_%s", li.ordinal, k), arr)
 			for _, r := range fixed {
@@ -454,6 +496,7 @@ func (u *UnitGen) cutLoop(fr *Frame, li *loopInfo, st *State) *State {
 			u.loopFrames++
 		case precise:
 			nv = u.havoc(fmt.Sprintf("loop%d_%s", li.ordinal, k), so)
+			u.pendingAxioms = append(u.pendingAxioms, pendingAxiom{k, nv})
 			var ex []string
 			for _, r := range fixed {
 				ex = append(ex, fmt.Sprintf("(not (= r %s))", r.S))
@@ -467,6 +510,7 @@ func (u *UnitGen) cutLoop(fr *Frame, li *loopInfo, st *State) *State {
 		default:
 			nv = u.havoc(fmt.Sprintf("loop%d_%s", li.ordinal, k), so)
 			u.set(ns, k, nv)
+			u.pendingAxioms = append(u.pendingAxioms, pendingAxiom{k, nv})
 		}
 		if k == "top" {
 			u.assume(ns, App(SBool, "<=", u.top(st), nv))
@@ -477,8 +521,21 @@ func (u *UnitGen) cutLoop(fr *Frame, li *loopInfo, st *State) *State {
 			}
 		}
 	}
+	for _, pa := range u.pendingAxioms {
+		u.heapAxiom(ns, pa.key, pa.arr)
+	}
+	u.pendingAxioms = nil
+	for _, tv := range u.typedFresh {
+		u.assumeTypedVal(ns, tv)
+	}
+	u.typedFresh = nil
 	u.assumeInvariants(fr, li, ns)
 	return ns
+}
+
+type pendingAxiom struct {
+	key string
+	arr Term
 }
 
 func (u *UnitGen) bindLoopSpec(fr *Frame, li *loopInfo) {
@@ -595,4 +652,56 @@ func (u *UnitGen) assumeInvariants(fr *Frame, li *loopInfo, st *State) {
 
 func keySortIsInt(so Sort) bool {
 	return strings.HasPrefix(string(so), "(Array Int ")
+}
+
+// anchoredAsserts checks "assert at <anchor>" clauses attached to the source line about to execute.
+// Each clause is checked once per distinct (block) arrival at the line: before the first
+// instruction of that line in the current block.
+func (u *UnitGen) anchoredAsserts(fr *Frame, st *State, file string, line int) {
+	if u.contract == nil || len(u.contract.Asserts) == 0 || u.dry > 0 {
+		return
+	}
+	key := fmt.Sprintf("%s:%d:%p", file, line, st)
+	if u.assertDone[key] {
+		return
+	}
+	u.assertDone[key] = true
+	lines := u.g.lines(file)
+	if line < 1 || line > len(lines) {
+		return
+	}
+	for i := range u.contract.Asserts {
+		a := &u.contract.Asserts[i]
+		if !strings.Contains(lines[line-1], a.Anchor) {
+			continue
+		}
+		a.Hits++
+		env := fr.env.withState(st)
+		env.fr = fr
+		name := a.Label
+		if name == "" {
+			name = fmt.Sprint(i + 1)
+		}
+		u.assertCtr[name]++
+		full := fmt.Sprintf("at:%s#%d", name, u.assertCtr[name])
+		u.oblige(st, "assert", full, a.Text, env.evalBool(a.E))
+	}
+}
+
+// isPlainReturnBlock: a block that only stores/loads locals and returns.
+func isPlainReturnBlock(b *ssa.BasicBlock) bool {
+	if len(b.Instrs) == 0 || len(b.Instrs) > 16 {
+		return false
+	}
+	if _, ok := b.Instrs[len(b.Instrs)-1].(*ssa.Return); !ok {
+		return false
+	}
+	for _, in := range b.Instrs {
+		switch in.(type) {
+		case *ssa.Store, *ssa.UnOp, *ssa.RunDefers, *ssa.Return, *ssa.DebugRef, *ssa.MakeInterface, *ssa.ChangeInterface:
+		default:
+			return false
+		}
+	}
+	return true
 }
